@@ -1,8 +1,11 @@
 """C13 - LDM queries return exactly the matching objects, identically on both back-ends."""
 from __future__ import annotations
 
+import fractions
 import functools
 import json
+import math
+import re
 
 from . import common
 from .ldm_common import (LdmUnderTest, T0_UTC_MS, its_ms, make_location, location_dict, cjson, canon, type_of_message)
@@ -22,7 +25,9 @@ TRUSTED_BASE = [
 ASSUMPTIONS = [
     "the model is tied to IF.LDM.4 request_data_objects of Factory-built LDMs (Dictionary and TinyDB back-ends) by "
     "execution on the same stores and requests, not by proof",
-    "reference values are scalars (int, str, bool); messages contain ints, strings, bools, dictionaries, lists and "
+    "reference values are scalars (int, str, bool, finite float); a float reference value enters the model as its exact "
+    "rational value (float.as_integer_ratio()) plus the text Python's str() gives for it (the shortest-repr algorithm is "
+    "not modelled; nan / inf are outside the domain); messages contain ints, strings, bools, dictionaries, lists and "
     "CHOICE pairs, no bytes and no floats",
     "ordering attributes are names whose values, where present, are all numbers or all strings (sorted() raises "
     "TypeError on mixed kinds and on dictionaries; outside the property's domain)",
@@ -141,7 +146,7 @@ def gen_kinds(rng, sid, typ=None):
         typ = rng.choice(tuple(range(0, 22)))
     name = type_names().get(typ, "unknownMessage")
     body = {"generationDeltaTime": rng.choice((0, sid % 65536)),
-            "note": rng.choice((None, None, "", "", "abc", "b", "None")),
+            "note": rng.choice((None, None, "", "", "abc", "b", "None", "1", "x10", "1.0", "True", "False0", "-1.5")),
             "flag": rng.choice((True, False, False, None, 0, 1)),
             "delta": rng.choice((-5, -1, 0, 0, 3)),
             "items": rng.choice(([], [], [1, 2], ["a", ""], [None], [0])),
@@ -341,8 +346,29 @@ def _num(x):
     return isinstance(x, (int, bool))
 
 
+def _refnum(x):
+    """a reference value that is a number: int, bool or (finite) float - compared by exact value"""
+    return isinstance(x, (int, bool)) or (isinstance(x, float) and math.isfinite(x))
+
+
 def spec_compare(v, op, ref):
-    """is `v op ref` true? comparisons between values that cannot be compared are not true"""
+    """is `v op ref` true? comparisons between values that cannot be compared are not true.
+    Numbers (a bool is a number; a float reference value stands for its exact value) compare by value, strings by code
+    points; `like` on a string looks for the text of the reference value - str(1) = "1", str(True) = "True",
+    str(1.0) = "1.0" - so the answer depends on the type of the reference value there, and nowhere else"""
+    if _refnum(ref) and not isinstance(ref, (int, bool)):
+        if op in ("==", "!=", ">", "<", ">=", "<="):
+            if not _num(v):
+                return op == "!="
+            a, b = fractions.Fraction(int(v)), fractions.Fraction(ref)
+            return {"==": a == b, "!=": a != b, ">": a > b, "<": a < b, ">=": a >= b, "<=": a <= b}[op]
+        if isinstance(v, str):
+            found = str(ref) in v
+        elif isinstance(v, (list, tuple)):
+            found = any(spec_compare(e, "==", ref) for e in v)
+        else:
+            found = False
+        return found if op == "like" else not found
     if op in ("==", "!="):
         if _num(v) and _num(ref):
             eq = int(v) == int(ref)
@@ -463,8 +489,58 @@ BAD_PATHS = ["", "cam", "cam.", ".cam", "cam..generationDeltaTime", "header.stat
              "vam.vamParameters.vruLowFrequencyContainer.profileAndSubprofile.pedestrian", "Header.stationId"]
 
 
+FLOAT_REFS = (0.0, 1.0, -1.0, 2.0, 0.5, 2.5, -0.5, 100.0, 1000.5, 1e16, 9007199254740993.0, -0.0, 0.1, 1e-3)
+
+
+def retype(rng, ref):
+    """a reference value of another type that Python's == and hash() do not tell from `ref` (1, True and 1.0; 0, False
+    and 0.0; n and float(n)) or whose text is the same ("1" and 1); ref itself when there is none"""
+    if isinstance(ref, bool):
+        return rng.choice((int(ref), float(ref), str(ref)))
+    if isinstance(ref, int):
+        alt = [str(ref)]
+        if float(ref) == ref:
+            alt += [float(ref)] * 2
+        if ref in (0, 1):
+            alt += [bool(ref)] * 2
+        return rng.choice(alt)
+    if isinstance(ref, float):
+        alt = [str(ref)]
+        if ref.is_integer():
+            alt += [int(ref)] * 2
+            if ref in (0.0, 1.0):
+                alt += [bool(ref)] * 2
+        return rng.choice(alt)
+    for conv in (int, float):
+        try:
+            v = conv(ref)
+            if _refnum(v) and str(v) == ref:
+                return v
+        except ValueError:
+            pass
+    return {"True": True, "False": False}.get(ref, ref)
+
+
 def gen_ref(rng, pool_values, v_example):
-    """reference value of matching or non-matching type"""
+    """reference value of matching or non-matching type (a float is a non-matching type for every attribute of the
+    messages; it compares by value with the integers)"""
+    numbered = [v for v in pool_values if isinstance(v, str) and any(c in "0123456789" for c in v)]
+    if numbered and rng.random() < 0.2:
+        # a number whose text occurs in a stored string (like 100 matches "lessThan100m"): a reference value of non-matching
+        # type that matches nevertheless - as an int, or retyped (1 / True / 1.0 / "1")
+        runs = re.findall(r"[0-9]+", rng.choice(numbered))
+        run = rng.choice(runs)
+        ref = int(rng.choice((run, run, run[0], run[-1])))
+        return retype(rng, ref) if rng.random() < 0.4 else ref
+    ref = _gen_ref(rng, pool_values)
+    if rng.random() < 0.1:
+        if isinstance(ref, (int, bool)) and rng.random() < 0.75:
+            return float(ref) + rng.choice((0.0, 0.0, 0.0, 0.5, -0.5))
+        return rng.choice(FLOAT_REFS)
+    return ref
+
+
+def _gen_ref(rng, pool_values):
     x = rng.random()
     scal = [v for v in pool_values if isinstance(v, (int, str, bool))]
     if scal and x < 0.55:
@@ -480,7 +556,7 @@ def gen_ref(rng, pool_values, v_example):
         return rng.choice((0, 1, 2, 5, 15, -1, 3601, 16383, 1001, 600000000000))
     if x < 0.92:
         return rng.choice(("unavailable", "a", "", "forward", "lessThan50m", "basicVehicleContainerLowFrequency", "accident2", "pedestrian",
-                           "1", "0", "True", "medium", "isCancellation"))
+                           "1", "0", "True", "medium", "isCancellation", "1.0", "0.0", "False", "-1"))
     return rng.choice((True, False))
 
 
@@ -522,6 +598,45 @@ def gen_request(rng, store):
     orders = None if (n == 0 and rng.random() < 0.7) else \
         [{"name": rng.choice(ORDER_NAMES), "desc": rng.random() < 0.5} for _ in range(n)]
     return {"types": types, "filter": flt, "orders": orders}
+
+
+def gen_twin(rng, q, others):
+    """a request that differs from q in ONE respect only, most often the type of a reference value (same value: 1 / True /
+    1.0 / "1"), else the attribute path, the operator, the type selection or the ordering: an answer depends on the whole
+    request, whichever requests were answered before"""
+    t = json.loads(json.dumps(q))
+    stmts = [t["filter"][k] for k in ("s1", "s2") if t["filter"].get(k)]
+    st = rng.choice(stmts)
+    x = rng.random()
+    if x < 0.6:
+        st["ref"] = retype(rng, st["ref"])
+        if rng.random() < 0.5:
+            st["op"] = rng.choice(("like", "notlike", st["op"]))
+            for o in stmts:
+                if o is not st and rng.random() < 0.5:
+                    o["ref"] = retype(rng, o["ref"])
+    elif x < 0.75:
+        donors = [r["filter"]["s1"]["path"] for r in others if r["filter"] is not None]
+        st["path"] = rng.choice(donors)
+    elif x < 0.85:
+        st["op"] = rng.choice(OPS)
+    elif x < 0.93:
+        t["types"] = rng.choice(([2], [1], [16], [1, 2, 16], list(range(1, 22))))
+    else:
+        t["orders"] = rng.choice((None, [{"name": "stationId", "desc": rng.random() < 0.5}]))
+    return t
+
+
+def with_twins(rng, reqs, n):
+    """reqs plus n near-twins of some of its filtered requests, each somewhere after its original"""
+    out = list(reqs)
+    for _ in range(n):
+        cand = [i for i, r in enumerate(out) if r["filter"] is not None]
+        if not cand:
+            break
+        i = rng.choice(cand)
+        out.insert(rng.choice((i + 1, i + 1, rng.randrange(i + 1, len(out) + 1))), gen_twin(rng, out[i], out))
+    return out
 
 
 # --------------------------------------------------------------------------------------------
@@ -595,6 +710,9 @@ def enc_ref(r):
         return [2, 1 if r else 0]
     if isinstance(r, int):
         return [0, r]
+    if isinstance(r, float):
+        num, den = r.as_integer_ratio()          # exact; raises for nan / inf (outside the domain)
+        return [3, num, den] + enc_str(str(r))
     return [1] + enc_str(r)
 
 
@@ -655,6 +773,7 @@ def check_scenario(ctx, scen, label):
     hist, reqs, t0 = scen["history"], scen["requests"], scen["t0_utc_ms"]
     stages = sorted(scen.get("mid") or [], key=lambda m: m["at"]) + [{"at": len(hist), "requests": reqs, "final": True}]
     runners = {}
+    log_mark = len(REQUEST_LOG)
     try:
         for be in ("Dictionary", "TinyDB"):
             runners[be] = HistoryRunner(be, t0)
@@ -702,7 +821,7 @@ def check_scenario(ctx, scen, label):
                 ctx.dist["history_expired"] = ctx.dist.get("history_expired", 0) + _n_expired(hist, t0)
             else:
                 ctx.dist["mid_history_stages"] = ctx.dist.get("mid_history_stages", 0) + 1
-            check_requests(ctx, luts, store, store_json, stage["requests"], info, label, answers[si])
+            check_requests(ctx, luts, store, store_json, stage["requests"], info, label, answers[si], log_mark)
     finally:
         for r in runners.values():
             r.lut.close()
@@ -717,9 +836,116 @@ def _n_expired(hist, t0):
     return max(0, len(alive) - len(expected_store(hist, t0)))
 
 
-def check_requests(ctx, luts, store, store_json, reqs, info, label, model=None):
+REQUEST_LOG = []        # every request made in this process, in order (what an earlier request leaves behind may matter)
+
+
+def _stmts(q):
+    f = q.get("filter")
+    return [f[k] for k in ("s1", "s2") if f.get(k)] if f else []
+
+
+def related(r, q):
+    """r and q share a statement up to what Python's == (and hence a dictionary or memo key) cannot tell apart -
+    operator and reference value equal, 1 == True == 1.0 - or up to the text of the reference value, or r == q"""
+    if r == q:
+        return True
+    for a in _stmts(r):
+        for b in _stmts(q):
+            if a["op"] == b["op"] and (a["ref"] == b["ref"] or str(a["ref"]) == str(b["ref"])):
+                return True
+    return False
+
+
+def _uniq(reqs):
+    seen, out = set(), []
+    for r in reqs:
+        k = cjson(r)
+        if k not in seen:
+            seen.add(k)
+            out.append(r)
+    return out
+
+
+def retyped_twin(r, q):
+    """r holds a statement with the operator of a statement of q and a reference value that == (or str()) identifies
+    with q's but that is of ANOTHER type"""
+    for a in _stmts(r):
+        for b in _stmts(q):
+            if a["op"] == b["op"] and (a["ref"] == b["ref"] or str(a["ref"]) == str(b["ref"])) and type(a["ref"]) is not type(b["ref"]):
+                return True
+    return False
+
+
+def replay_context(ctx, inp, info_mid, hist, reqs, qi, log_mark, for_mismatch=False, keep=related):
+    """the requests that were answered before reqs[qi] and may have left something behind, added to the replay input as
+    stages: related requests of earlier scenarios of this run (asked on the empty store, stage 0) and the preceding
+    requests of the same stage (all of a short stage, the related ones of a long one)"""
+    if len(ctx.mismatches if for_mismatch else ctx.failures) >= 10:        # only the first ones are written out
+        return inp
+    q = reqs[qi]
+    # earlier stages of the scenario; of a long stage only the requests related to this one
+    mid = [m if len(m["requests"]) <= 60 else dict(m, requests=[r for r in m["requests"] if related(r, q)])
+           for m in info_mid or []]
+    earlier = _uniq(r for r in REQUEST_LOG[:log_mark] if keep(r, q))
+    if len(earlier) > 40:
+        earlier = earlier[:20] + earlier[-20:]
+    if earlier:
+        mid.insert(0, {"at": 0, "requests": earlier})
+    before = reqs[:qi] if len(reqs) <= 70 and keep is related else [r for r in reqs[:qi] if keep(r, q)]
+    if before:
+        mid.append({"at": len(hist), "requests": _uniq(before)})
+    return dict(inp, mid=mid) if mid else inp
+
+
+def failure_input(ctx, label, inp, info_mid, hist, reqs, qi, log_mark, cls=None, for_mismatch=False):
+    """the replay input of a failing request: the request with the requests before it that may matter"""
+    a = replay_context(ctx, inp, info_mid, hist, reqs, qi, log_mark, for_mismatch)
+    if for_mismatch or cls is None or label == "replay" or ctx.failures:
+        return a
+    b = replay_context(ctx, inp, info_mid, hist, reqs, qi, log_mark, for_mismatch, keep=retyped_twin)
+    return confirmed_context(ctx, cls, [a] + ([b] if b != a else []))
+
+
+_CONFIRMED = []
+
+
+def confirmed_context(ctx, cls, candidates):
+    """The first failure of a run is the one written out as the replay. What an order-dependent failure needs of the
+    requests answered before it cannot be known from inside this process (the state they left behind is still there), so
+    the candidate contexts are tried in a fresh process each - at most once per run, a few seconds, on a failing tree
+    only - and the first one on which the failure shows again is recorded; the fullest one if none does"""
+    if _CONFIRMED or ctx.failures or any(k.get("class") == cls for k in ctx.known) or len(candidates) < 2:
+        return candidates[0]
+    _CONFIRMED.append(cls)
+    import os
+    import subprocess
+    import sys
+    import tempfile
+    code = ("import sys, json; sys.path.insert(0, %r); from harness import common, c13; common.use_repo_sources(); "
+            "sys.exit(3 if c13.replay(common.Ctx('C13', 'quick', 0), json.load(open(sys.argv[1]))) else 0)" % common.VERIF)
+    for cand in candidates:
+        fd, path = tempfile.mkstemp(prefix="c13_confirm_", suffix=".json", dir="/tmp")
+        try:
+            with os.fdopen(fd, "w") as f:
+                json.dump({"failure": {"kind": "property_failure", "class": cls, "input": cand}}, f, default=str)
+            r = subprocess.run([sys.executable, "-c", code, path], stdout=subprocess.DEVNULL, stderr=subprocess.DEVNULL, timeout=300)
+            if r.returncode == 3:
+                return cand
+        except Exception:
+            pass
+        finally:
+            os.unlink(path)
+    return candidates[0]
+
+
+def _ref_kind(r):
+    return "bool" if isinstance(r, bool) else "int" if isinstance(r, int) else "float" if isinstance(r, float) else "str"
+
+
+def check_requests(ctx, luts, store, store_json, reqs, info, label, model=None, log_mark=None):
     """model: the model's answers (store positions) to reqs on this store, or None"""
     hist, t0 = info["history"], info["t0_utc_ms"]
+    log_mark = len(REQUEST_LOG) if log_mark is None else log_mark
     if True:
         if True:
             # ---- requests -----------------------------------------------------------------
@@ -727,10 +953,7 @@ def check_requests(ctx, luts, store, store_json, reqs, info, label, model=None):
                 kinds_ok = order_kinds_ok(store, q)
                 want = spec_query(store, q) if kinds_ok else None
                 inp = {"history": hist, "t0_utc_ms": t0, "requests": [q]}
-                if info.get("mid"):
-                    # earlier stages of the scenario; of a long stage only the requests equal to this one
-                    inp["mid"] = [m if len(m["requests"]) <= 60 else dict(m, requests=[r for r in m["requests"] if r == q])
-                                  for m in info["mid"]]
+                full = functools.partial(failure_input, ctx, label, inp, info.get("mid"), hist, reqs, qi, log_mark)   # on failure only
                 got = {}
                 for be in ("Dictionary", "TinyDB"):
                     code, data = impl_request(luts[be], q)
@@ -738,27 +961,27 @@ def check_requests(ctx, luts, store, store_json, reqs, info, label, model=None):
                     if code == "EXC":
                         got[be] = ("EXC", data)
                         if kinds_ok:
-                            ctx.property_failure("query_exception_" + be, inp, f"request raised on the {be} back-end: {data}", want, data)
+                            ctx.property_failure("query_exception_" + be, full(cls="query_exception_" + be), f"request raised on the {be} back-end: {data}", want, data)
                         continue
                     idx = to_indices(store_json, data)
                     got[be] = idx
                     if not kinds_ok:
                         continue
                     if code != 0:
-                        ctx.property_failure("query_refused_" + be, inp, f"valid request refused with result {code}", 0, code)
+                        ctx.property_failure("query_refused_" + be, full(cls="query_refused_" + be), f"valid request refused with result {code}", 0, code)
                     elif sorted(idx) != sorted(want):
                         cls = "query_not_exact_" + be
                         if q["filter"] is None:
                             cls = "query_type_selection_" + be
-                        ctx.property_failure(cls, inp, f"the {be} back-end does not return exactly the stored objects of the requested "
+                        ctx.property_failure(cls, full(cls=cls), f"the {be} back-end does not return exactly the stored objects of the requested "
                                              f"types for which the filter is true (store positions)", want, idx)
                     elif idx != want:
-                        ctx.property_failure("query_not_ordered_" + be, inp, f"the {be} back-end returns the matching objects in "
+                        ctx.property_failure("query_not_ordered_" + be, full(cls="query_not_ordered_" + be), f"the {be} back-end returns the matching objects in "
                                              f"another order than requested", want, idx)
                     if model is not None and model[qi] != idx:
-                        ctx.mismatch(f"{be} request_data_objects = LdmFilter.query", inp, model[qi], idx)
+                        ctx.mismatch(f"{be} request_data_objects = LdmFilter.query", full(for_mismatch=True), model[qi], idx)
                 if kinds_ok and got.get("Dictionary") != got.get("TinyDB"):
-                    ctx.property_failure("backends_differ", inp, "the two back-ends answer the same request differently",
+                    ctx.property_failure("backends_differ", full(cls="backends_differ"), "the two back-ends answer the same request differently",
                                          got.get("Dictionary"), got.get("TinyDB"))
                 if kinds_ok:
                     if want:
@@ -771,8 +994,10 @@ def check_requests(ctx, luts, store, store_json, reqs, info, label, model=None):
                         for s in (q["filter"]["s1"], q["filter"]["s2"]):
                             if s:
                                 ctx.dist["op_" + s["op"]] = ctx.dist.get("op_" + s["op"], 0) + 1
+                                ctx.dist["ref_" + _ref_kind(s["ref"])] = ctx.dist.get("ref_" + _ref_kind(s["ref"]), 0) + 1
                 else:
                     ctx.dist["order_kinds_mixed_skipped"] = ctx.dist.get("order_kinds_mixed_skipped", 0) + 1
+            REQUEST_LOG.extend(reqs)
             if reqs:
                 ctx.sample({"store_size": len(store), "request": reqs[0], "expected_positions": spec_query(store, reqs[0]) if order_kinds_ok(store, reqs[0]) else None})
 
@@ -781,14 +1006,15 @@ def gen_scenario(rng, n_add, n_req, style="plain"):
     t0 = T0_UTC_MS + rng.randrange(1000)
     hist = gen_history(rng, n_add, style)
     store = expected_store(hist, t0)
-    scen = {"history": hist, "t0_utc_ms": t0, "requests": [gen_request(rng, store) for _ in range(n_req)]}
+    # plus near-twins of some requests (same statement with the reference value in another type, ...) later in the list
+    scen = {"history": hist, "t0_utc_ms": t0, "requests": with_twins(rng, [gen_request(rng, store) for _ in range(n_req)], max(2, n_req // 15))}
     if style == "audit" and len(hist) > 3:
         # requests between the operations of the history: what an earlier request returned must not leak into a later one
         cuts = sorted(set(rng.randrange(1, len(hist)) for _ in range(rng.choice((1, 1, 2)))))
         scen["mid"] = []
         for at in cuts:
             st = expected_store(hist[:at], t0)
-            rq = [gen_request(rng, st) for _ in range(max(3, n_req // 6))]
+            rq = with_twins(rng, [gen_request(rng, st) for _ in range(max(3, n_req // 6))], 1)
             # repeat some of the final requests early (same request before and after later operations)
             scen["mid"].append({"at": at, "requests": rq + scen["requests"][:max(3, n_req // 6)]})
         # the same requests immediately before and immediately after an update (nothing added or removed in between)
@@ -907,6 +1133,85 @@ def boundary_scenarios_audit():
                      {"at": mid4, "requests": reqs[::3]}, {"at": mid5, "requests": reqs[::3]}]}]
 
 
+REF_FAMILIES = ((0, False, 0.0, "0", "0.0", "False"), (1, True, 1.0, "1", "1.0", "True"), (2, 2.0, 2.5, "2"),
+                (-1, -1.0, -0.5, "-1"), (100, 100.0, 99.5), (1000, 1e3, "1000.0"), (600, 600.0, 0.5))
+
+
+def boundary_scenarios_reftypes(rng, tier="quick"):
+    """reference values of every type against attributes of every kind, in sequences: "reference values of matching and
+    non-matching type" includes values that Python's == / hash() identify although they are of different types
+    (0 = False = 0.0, 1 = True = 1.0, n = float(n)) and their texts ("1", "1.0", "True"). For ==, !=, <, <=, >, >= and
+    for like / notlike on a list such values are interchangeable (C13_same_number_interchangeable); on a STRING
+    like / notlike look for str(reference), which differs with the type. The store therefore holds strings that contain
+    the text of one member of a family and not of another (lessThan100m, alt-000-01, "1.0", "True", ...) next to numbers,
+    booleans and lists; every family is asked member after member on every attribute with every operator, in both orders,
+    on one LDM pair and - second scenario - again on a fresh pair (what an answer to one member leaves behind, in the
+    back-end or in the process, must not answer the next)"""
+    t0 = T0_UTC_MS
+    ex = {"smc": 1, "smo": 2, "smic": 3, "ac": 0, "radius": 10, "rd": 1, "td": 0}
+    hist = []
+
+    def add(msg):
+        k = len(hist)
+        hist.append({"op": "add", "k": k, "aid": 2, "dts": 0, "lat": 413800000 + k * 100000, "lon": 21100000, "alt": 0,
+                     "extra": dict(ex), "val": 100000, "msg": msg})
+    sid = 3000
+    for dist, dur, iq in (("lessThan50m", 0, 0), ("lessThan100m", 1, 1), ("lessThan1000m", 600, 2), ("over10km", 100, 7)):
+        sid += 1
+        m = gen_denm(rng, sid)
+        m["denm"]["management"].update(relevanceDistance=dist, validityDuration=dur)
+        m["denm"]["situation"] = {"informationQuality": iq, "eventType": {"ccAndScc": ("accident2", 1)}}
+        m["denm"]["alacarte"] = {"lanePosition": iq - 1, "stationaryVehicle": {"stationarySince": rng.choice(("lessThan1Minute", "equalOrGreater15Minutes")),
+                                                                                "numberOfOccupants": iq}}
+        add(m)
+    for gdt, conf in ((0, "alt-000-01"), (1, "unavailable"), (2, "alt-200-00"), (1000, "alt-000-02")):
+        sid += 1
+        m = gen_cam(rng, sid)
+        m["cam"]["generationDeltaTime"] = gdt
+        m["cam"]["camParameters"]["basicContainer"]["referencePosition"]["altitude"]["altitudeConfidence"] = conf
+        add(m)
+    sid += 1
+    add(gen_vam(rng, sid))
+    notes = ("1", "0", "1.0", "0.0", "True", "False", "-1", "2.5", "x100y", "t2", "600.0", "", None, "abc", "-0.5e", "1000")
+    flags = (True, False, 0, 1, None, 2, -1, True, False, 100, 1, 0, None, 600, 1000, True)
+    items = ([1, 8], [True], [0], ["1"], [], [False, "0"], ["1.0", 2], [None], [100], [-1], ["True"], [1000, "x"], [600], [2], ["False"], [0, 1])
+    for i, note in enumerate(notes):
+        sid += 1
+        add({"header": {"protocolVersion": 2, "messageId": 3, "stationId": sid},
+             "poi": {"generationDeltaTime": i, "note": note, "flag": flags[i], "delta": (i % 5) - 2, "items": items[i]}})
+    paths = ("denm.management.relevanceDistance", "denm.management.validityDuration", "denm.situation.informationQuality",
+             "denm.alacarte.stationaryVehicle.stationarySince",
+             "cam.camParameters.basicContainer.referencePosition.altitude.altitudeConfidence", "cam.generationDeltaTime",
+             "poi.note", "poi.flag", "poi.items", "header.stationId", "poi.noSuchAttribute")
+    types = [1, 2, 3, 16]
+
+    def one(path, op, ref):
+        return {"types": types, "filter": {"s1": {"path": path, "op": op, "ref": ref}, "lop": None, "s2": None}, "orders": None}
+    fams = REF_FAMILIES if tier != "quick" else REF_FAMILIES[:4] + (REF_FAMILIES[4 + rng.randrange(3)],)
+    forward, backward, mixed = [], [], []
+    for path in paths:
+        for op in OPS:
+            for fam in fams:
+                forward += [one(path, op, r) for r in fam]
+    for fam in fams:          # the members in the opposite order; the text-sensitive operators and one of the others
+        for op in ("notlike", "like", rng.choice(OPS[:6])):
+            for path in paths:
+                backward += [one(path, op, r) for r in reversed(fam)]
+    # two statements: the same family member twice, and two members of a family in one filter
+    for fam in fams:
+        for _ in range(6 if tier == "quick" else 20):
+            a, b = rng.choice(fam), rng.choice(fam)
+            q = {"types": types, "filter": {"s1": {"path": rng.choice(paths[:9]), "op": rng.choice(("like", "notlike", "==", ">=")), "ref": a},
+                                            "lop": rng.choice(("and", "or")),
+                                            "s2": {"path": rng.choice(paths[:9]), "op": rng.choice(("like", "notlike", "!=", "<")), "ref": b}},
+                 "orders": rng.choice((None, [{"name": "stationId", "desc": True}]))}
+            mixed.append(q)
+    shuffled = forward[::3] + mixed
+    rng.shuffle(shuffled)
+    return [{"history": hist, "t0_utc_ms": t0, "requests": forward + mixed, "mid": [{"at": len(hist) - 1, "requests": backward}]},
+            {"history": hist, "t0_utc_ms": t0 + 1, "requests": shuffled}]
+
+
 def check_dec_str(ctx):
     """str(needle) of the like operator: the model's decimal conversion against Python's"""
     if not ctx.model.available:
@@ -928,7 +1233,11 @@ def run(ctx):
                 "messages of all 21 types and untyped ones with null / empty-string / boolean / negative / empty-container values and "
                 "the header last, locations with rectangle / ellipse / no circle, validity 0-5 s with clock advances, explicit and "
                 "reactive maintenance (objects lapse on both back-ends), operations on unknown identifiers, requests also between "
-                "the operations of a history; each back-end "
+                "the operations of a history; reference values also finite floats (integral, fractional, beyond 2^53) and the texts of "
+                "numbers / booleans, stored strings that contain such texts; request SEQUENCES in which a statement recurs with its "
+                "reference value in another type that == / hash() identify (0 / False / 0.0, 1 / True / 1.0, n / float(n)) or with "
+                "another path / operator / type selection (near-twins), adjacent, far apart, across stages and across LDM "
+                "instances of one process (boundary_reftypes: every family x attribute kind x operator, both orders); each back-end "
                 "is compared with the specification oracle, with the model and with the other back-end; evaluations = requests "
                 "executed per back-end + history operations; non-trivial = request with a non-empty expected result, distinct by "
                 "(request, store size, result)")
@@ -944,6 +1253,8 @@ def run(ctx):
         check_scenario(ctx, s, "boundary")
     for s in boundary_scenarios_audit():
         check_scenario(ctx, s, "boundary_audit")
+    for s in boundary_scenarios_reftypes(rng, ctx.tier):
+        check_scenario(ctx, s, "boundary_reftypes")
     n_scen = 120 if ctx.tier == "quick" else 1500
     for _ in range(n_scen):
         check_scenario(ctx, gen_scenario(rng, rng.choice((1, 3, 6, 10, 15, 25)), 60), "seeded")
